@@ -6,6 +6,46 @@ from .. import oracles as orc
 THEOREMS = ["C05.pack4_length", "C05.unpack_pack", "C05.decode_encode8", "C05.encodeAll8", "C05.decode_encode", "C05.decode_encode_wrap", "C05.decodeAll_encodeAll", "C05.encodeAllLE_length", "C05.f16Val_f16Bits", "C17.dq_q_ideal", "C17.cover_ideal", "C17.dq_q_rounded", "C17.q_in_range", "C17.q_in_range_64", "C17.saturates_high_64"]
 
 
+def big_constants(ctx):
+    """constants of more than 2^20 elements (real layers are this large; every generated model is tiny): decoded element by element by
+    the independent decoder only (the exact-rational model would need minutes for a million elements)"""
+    import numpy as np
+    from ai_edge_litert import schema_py_generated as s
+    from .. import pipeline as pl
+    rng = ctx.rng
+    shapes = [("FULLY_CONNECTED", [rng.choice([1100, 1030, 1280]), 1024]), ("EMBEDDING_LOOKUP", [rng.choice([9000, 8300]), 128])]
+    for kind, shp in shapes[: (2 if ctx.tier == "thorough" else 1)] if rng.random() < 0.5 else shapes[::-1][: (2 if ctx.tier == "thorough" else 1)]:
+        g = gm.G()
+        g.subgraph()
+        r = np.random.RandomState(rng.randrange(2 ** 31))
+        w = r.randn(*shp).astype(np.float32)
+        if kind == "FULLY_CONNECTED":
+            x = g.tensor("x", [1, shp[1]])
+            wt = g.tensor("w_big", shp, data=w)
+            y = g.tensor("y", [1, shp[0]])
+            g.op(gm.BO.FULLY_CONNECTED, [x, wt, -1], [y], gm.OPT.FullyConnectedOptions, s.FullyConnectedOptionsT())
+            g.io([x], [y], sig="serving_default")
+        else:
+            ids = g.tensor("ids", [2], gm.TT.INT32)
+            wt = g.tensor("table_big", shp, data=w)
+            y = g.tensor("y", [2, shp[1]])
+            g.op(gm.BO.EMBEDDING_LOOKUP, [ids, wt], [y])
+            g.io([ids], [y], sig="serving_default")
+        mb = g.bytes()
+        info = {"tags": {"constant_over_2^20_elements"}, "subgraphs": [{"sig": "serving_default", "int_inputs": [], "ops": [kind]}]}
+        cfg = pl.UNIFORM[rng.choice(["drq8", "drq8t", "wo8"] if kind == "FULLY_CONNECTED" else ["drq8", "drq8t"])]
+        cmds = [{"k": "add", "regex": ".*", "operation": kind, "cfg": cfg, "alg": "min_max_uniform_quantize"}]
+        case = fp.Case(mb, info, cmds=cmds, data=None, desc=[("big constant", kind, shp, cfg["weight"]["gran"])])
+        case.replay = lambda kind=kind, shp=shp, cfg=cfg: {"big_constant": kind, "shape": shp, "cfg": cfg}   # (the model itself is megabytes)
+        res = fp.run_case(ctx, None, case, graph_corr=False)
+        ctx.case({"big_constant": kind, "shape": shp}, res["status"] == "ok")
+        ctx.tag("constant_over_2^20_elements")
+        if res["status"] == "ok":
+            orc.oracle_c05(ctx, case, res, fp.failer(ctx, case, prefix=f"[{kind} {shp}] "))
+        else:
+            ctx.fail(f"quantizing a {shp} {kind} constant raised {res.get('exc')}", case.replay(), "big-constant-raises")
+
+
 def run(ctx):
     ctx.rule = ("every rewritten constant of every generated model x recipe (weights of fc/conv/depthwise/transpose-conv/batch-matmul/embedding, constant operands of elementwise ops and concatenations, biases; 4/8/16 bit, symmetric/asymmetric, per-tensor/per-channel, odd element counts) decoded by an independent decoder and compared with the float original; the arithmetic and the whole pipeline are compared bit-exactly with the Lean model; distinct = distinct (model, recipe) pairs")
     common.proof_side(ctx, THEOREMS, modules=["QProps.C05", "QProps.C05b", "QProps.C17", "QProps.C17b", "QProps.C17c"])
@@ -27,6 +67,7 @@ def run(ctx):
             case.desc = [("float16 cast", case.cmds[0]["operation"])]
             case.info["tags"].add("float16_cast_of_huge_constants")
         return case
+    big_constants(ctx)
     fp.explore(ctx, drv, 600 if ctx.tier == "quick" else 4000, per_case, gen=gen, graph_corr=False, pipe_corr=True)
     drv.close()
     return common.finish(ctx)
